@@ -515,10 +515,14 @@ func VerifRunLocal(sc LocalScenario, prefix []int) (*vshim.Sched, *LocalResult) 
 			res.Steps++
 			res.States = append(res.States, fmt.Sprintf("run%v c%d m%d q%d/%d", keysOf(running), jm.centcoreSem.reserved, jm.memMBSem.reserved, len(jm.centcoreSem.waiters), len(jm.memMBSem.waiters)))
 			// what the running jobs were promised
-			var thr, mem float64
+			var thr, mem, vmem float64
 			for k := range running {
 				thr += promised[k].Threads
 				mem += promised[k].MemGB
+				vmem += promised[k].VMemGB
+			}
+			if sc.VmemGB > 0 && vmem > float64(sc.VmemGB)+1e-9 {
+				viol("jobs %v run at once with %g GB of virtual memory reserved, the limit is %d GB", keysOf(running), vmem, sc.VmemGB)
 			}
 			if thr > maxSeen[0] {
 				maxSeen[0] = thr
